@@ -22,6 +22,7 @@
  */
 #include "verif.h"
 #include "lib/tar/src/read_header.c"
+#define ENV_MEMCPY_STUB
 #include "tar_env.h"
 
 /* not reached from the functions under test; named so that a change that
@@ -63,9 +64,7 @@ static char *some_string(void)
 	char *p = malloc(4);
 
 	VERIF_ASSUME(p != NULL);
-	p[0] = (char)verif_nd_u8("s0");
-	p[1] = (char)verif_nd_u8("s1");
-	p[2] = (char)verif_nd_u8("s2");
+	verif_nd_bytes(p, 3, "str");
 	p[3] = '\0';
 	return p;
 }
